@@ -85,7 +85,7 @@ use crate::sql::state::{
 use crate::sql::util::{
     allocate_value_to_arena, clone_value_owned, clone_value_ref_to_arena, compare_values_for_sort,
     compute_group_key_for_dynamic, compute_group_key_from_exprs, encode_value_to_key,
-    evaluate_group_by_exprs, extract_group_values, hash_keys, hash_keys_static, hash_value,
+    evaluate_group_by_exprs, extract_group_values, hash_keys, hash_keys_static,
     keys_match_static,
 };
 use crate::types::Value;
@@ -1216,7 +1216,7 @@ where
         let mut hasher = DefaultHasher::new();
         for &idx in key_indices {
             if let Some(val) = row.get(idx) {
-                hash_value(val, &mut hasher);
+                crate::sql::util::hash_join_key(val, &mut hasher);
             }
         }
         hasher.finish()
